@@ -23,6 +23,12 @@ mod methods {
         }
 
         this.sort_by(|a, b| {
+            // an integer meets a double as its nearest double, which is not transitive next to
+            // exact integer comparison (2^53 + 1 and 2^53 both equal 2^53 as doubles); sort_by
+            // may panic on such a comparator, so mixed numbers are ordered by their exact value
+            if let Some(o) = internal::exact_number_cmp(a, b) {
+                return o;
+            }
             a.clone()
                 .ord(b.clone())
                 .unwrap_or(Some(std::cmp::Ordering::Less))
@@ -31,5 +37,37 @@ mod methods {
         Ok(this)
     }
 
-    mod internal {}
+    mod internal {
+        use crate::CelValue;
+
+        pub fn exact_number_cmp(a: &CelValue, b: &CelValue) -> Option<std::cmp::Ordering> {
+            fn int_of(v: &CelValue) -> Option<i128> {
+                match v {
+                    CelValue::Int(i) => Some(*i as i128),
+                    CelValue::UInt(u) => Some(*u as i128),
+                    _ => None,
+                }
+            }
+            // the integer `n` against the double `f` (never NaN: sort() rejected it above)
+            fn int_vs_float(n: i128, f: f64) -> std::cmp::Ordering {
+                use std::cmp::Ordering;
+                if f >= 18446744073709551616.0 {
+                    return Ordering::Less;
+                }
+                if f < -9223372036854775808.0 {
+                    return Ordering::Greater;
+                }
+                // |f| < 2^64: the integral part converts exactly
+                match n.cmp(&(f.trunc() as i128)) {
+                    Ordering::Equal => 0.0f64.partial_cmp(&f.fract()).unwrap_or(Ordering::Equal),
+                    o => o,
+                }
+            }
+            match (a, b) {
+                (CelValue::Float(f), other) => int_of(other).map(|n| int_vs_float(n, *f).reverse()),
+                (other, CelValue::Float(f)) => int_of(other).map(|n| int_vs_float(n, *f)),
+                _ => None,
+            }
+        }
+    }
 }
